@@ -143,14 +143,15 @@ string_kwargs: set[str] = {"minItems", "maxItems", "minLength", "maxLength", "pa
 
 byes_kwargs: set[str] = {"minLength", "maxLength"}
 
-escape_characters = str.maketrans({
-    "'": r"\'",
-    "\b": r"\b",
-    "\f": r"\f",
-    "\n": r"\n",
-    "\r": r"\r",
-    "\t": r"\t",
-})
+
+
+def pattern_literal(pattern: str) -> str:
+    """Source text of a string literal that evaluates to `pattern`: `r'...'` when that reads back
+    unchanged (no quote, no control character, no dangling backslash), else `repr()`."""
+    dangling_backslash = (len(pattern) - len(pattern.rstrip("\\"))) % 2
+    if "'" in pattern or dangling_backslash or any(ord(c) < 32 or ord(c) == 127 for c in pattern):  # noqa: PLR2004
+        return repr(pattern)
+    return f"r'{pattern}'"
 
 
 class DataTypeManager(_DataTypeManager):
@@ -287,9 +288,7 @@ class DataTypeManager(_DataTypeManager):
             if strict:
                 data_type_kwargs["strict"] = True
             if self.PATTERN_KEY in data_type_kwargs:
-                escaped_regex = data_type_kwargs[self.PATTERN_KEY].translate(escape_characters)
-                # TODO: remove unneeded escaped characters
-                data_type_kwargs[self.PATTERN_KEY] = f"r'{escaped_regex}'"
+                data_type_kwargs[self.PATTERN_KEY] = pattern_literal(data_type_kwargs[self.PATTERN_KEY])
             return self.data_type.from_import(IMPORT_CONSTR, kwargs=data_type_kwargs)
         if strict:
             return self.strict_type_map[StrictTypes.str]
